@@ -54,6 +54,10 @@ def run_all():
         lambda: gs.vcv_local2cart(np.zeros((3, 2)), -23.0, 133.0),
         lambda: sv.precise_inst_ht([], 0.5, 0.1),                                  # empty observation list
         lambda: sv.first_vel_params(0.0, 0.0),                                     # division by zero
+        # non-finite coordinates through the covariance branch (what they leave in recycled work arrays)
+        lambda: gt.conform7(float('nan'), 1.0, float('inf'), gc.gda94_to_gda2020, np.eye(3)),
+        lambda: gt.conform14(float('inf'), float('nan'), 3.0, datetime.date(2020, 1, 1), gc.itrf2008_to_gda94, np.eye(3) * float('nan')),
+        lambda: gs.vcv_cart2local(np.full((3, 3), float('nan')), -23.0, 133.0),
         # the hash twins -1 / -2 (CPython: hash(-1) == hash(-2)) in value positions
         lambda: gs.rotation_matrix(-1, 133.0),
         lambda: gs.rotation_matrix(-2.0, -1.0),
